@@ -31,6 +31,16 @@ type tplItem struct {
 	single  bool // hole of exactly one unknown instruction
 	tag     string
 	visible []tplVis // hole: the named variables a sub-compilation can resolve at this point
+	regions []int    // hole: ids of the scope-depth regions open when the sub-compilation runs (innermost last)
+	arg     string   // hole: source text of the AST argument being compiled (e.g. e.Cond)
+	loop    string   // loop iteration vector of the lowering function at emission time
+}
+
+// tplHoleRec logs one sub-compilation in program order (kept even when the hole is chosen empty).
+type tplHoleRec struct {
+	name, arg, fn string
+	regions       []int
+	frame         int
 }
 
 // tplVis is one entry of the modelled scope.variables list.
@@ -146,6 +156,10 @@ type tplRun struct {
 	sdepth int             // model of scope.depth
 	owned  map[string]bool // variables created by this run (newVariable/pushVariable/createVariable)
 	lastRet []tVal
+	regions []int // open scope-depth regions (ids), innermost last
+	regionSeq int
+	curArg  string
+	holeLog []tplHoleRec
 }
 
 func (r *tplRun) shapeOptions(key string) int {
@@ -346,7 +360,9 @@ func (r *tplRun) eval(e ast.Expr, env *tplEnv) tVal {
 			return tVal{k: tvUnknown, desc: "scope"}
 		case "gojq.compiler.newScopeDepth":
 			r.sdepth++
-			return tVal{k: tvCloser, slot: -1, i: len(r.vis), desc: "scopedepth"}
+			r.regionSeq++
+			r.regions = append(r.regions, r.regionSeq)
+			return tVal{k: tvCloser, slot: -1, i: len(r.vis), desc: "scopedepth", s: fmt.Sprint(r.regionSeq)}
 		}
 		return tVal{k: tvUnknown, desc: r.src(x)}
 	case *ast.BinaryExpr:
@@ -945,6 +961,10 @@ func (r *tplRun) operandToIns(op string, v ast.Expr, env *tplEnv, pos token.Pos)
 			r.unsupported("branch operand %s of %s is not a known position at %s", r.src(v), op, r.c.Pos(pos))
 		}
 		in.Target = val.i
+	case "oppush":
+		if id, ok := unparen(v).(*ast.Ident); ok && id.Name == "nil" && r.info.Uses[id] == types.Universe.Lookup("nil") {
+			in.PushNil = true
+		}
 	case "opload", "opstore", "opappend", "opforklabel":
 		in.Var = 0
 		in.VarName = val.s
@@ -1025,7 +1045,7 @@ func (r *tplRun) emit(in bcIns) {
 	if in.Op == "opcall" && in.ArgCnt < 0 {
 		r.unsupported("opcall with unknown argument count at %s", r.c.Pos(in.Pos))
 	}
-	r.items = append(r.items, tplItem{ins: in})
+	r.items = append(r.items, tplItem{ins: in, loop: fmt.Sprint(r.loopIx)})
 }
 
 func (r *tplRun) doLazy(call *ast.CallExpr, env *tplEnv) tVal {
@@ -1034,7 +1054,7 @@ func (r *tplRun) doLazy(call *ast.CallExpr, env *tplEnv) tVal {
 		r.unsupported("lazy without a function literal")
 	}
 	slot := len(r.items)
-	r.items = append(r.items, tplItem{nilSlot: true, ins: bcIns{Op: "<lazy>", Target: -1, Var: -1, Pos: call.Pos()}})
+	r.items = append(r.items, tplItem{nilSlot: true, loop: fmt.Sprint(r.loopIx), ins: bcIns{Op: "<lazy>", Target: -1, Var: -1, Pos: call.Pos()}})
 	return tVal{k: tvCloser, slot: slot, lit: fl, env: env}
 }
 
@@ -1056,7 +1076,7 @@ func (r *tplRun) runCloser(v tVal) {
 	if cl == nil {
 		r.unsupported("lazy body is not `return &code{…}`")
 	}
-	r.items[v.slot] = tplItem{ins: r.insOfLit(cl, v.env)}
+	r.items[v.slot] = tplItem{ins: r.insOfLit(cl, v.env), loop: r.items[v.slot].loop}
 }
 
 // hole appends a sub-compilation of unknown content.
@@ -1085,9 +1105,12 @@ func (r *tplRun) hole(name string, pop, push int, pos token.Pos, canBeEmpty bool
 			visible = append(visible, w)
 		}
 	}
+	regions := append([]int(nil), r.regions...)
 	mk := func(single bool) tplItem {
-		return tplItem{isHole: true, single: single, holePop: pop, holePush: push, visible: visible, ins: bcIns{Op: "hole", Target: -1, Var: -1, Pos: pos, Hole: name}}
+		return tplItem{isHole: true, single: single, holePop: pop, holePush: push, visible: visible, regions: regions, arg: r.curArg, loop: fmt.Sprint(r.loopIx),
+			ins: bcIns{Op: "hole", Target: -1, Var: -1, Pos: pos, Hole: name}}
 	}
+	r.holeLog = append(r.holeLog, tplHoleRec{name: name, arg: r.curArg, regions: regions, frame: len(r.frames), fn: r.frame().fn.Name.Name})
 	switch cls {
 	case 0: // empty (identity)
 		if pop != push {
@@ -1121,6 +1144,13 @@ func (r *tplRun) callValue(fn tVal) {
 				r.sdepth--
 				if fn.i <= len(r.vis) {
 					r.vis = r.vis[:fn.i]
+				}
+				// close the region (and any region opened inside it that was left open)
+				for k := len(r.regions) - 1; k >= 0; k-- {
+					if fmt.Sprint(r.regions[k]) == fn.s {
+						r.regions = r.regions[:k]
+						break
+					}
 				}
 			}
 			return
@@ -1197,6 +1227,13 @@ func (r *tplRun) compilerCall(call *ast.CallExpr, env *tplEnv) bool {
 	}
 	// which sub-compilations may emit nothing: a query/term may be the identity
 	canBeEmpty := eff[0] == eff[1] && (short == "compileQuery" || short == "compileTerm" || short == "compile")
+	r.curArg = ""
+	if len(call.Args) > 0 {
+		r.curArg = r.src(call.Args[len(call.Args)-1])
+		if short == "compileQuery" || short == "compileTerm" {
+			r.curArg = r.src(call.Args[0])
+		}
+	}
 	r.hole(short, eff[0], eff[1], call.Pos(), canBeEmpty)
 	return true
 }
@@ -1845,6 +1882,7 @@ type tplVariant struct {
 	Choices     []string
 	Unsupported string
 	Owned       map[string]bool
+	HoleLog     []tplHoleRec
 }
 
 // tplExplore enumerates the variants of one root function by replaying decision vectors depth-first.
@@ -1872,6 +1910,7 @@ func tplExplore(c *Ctx, fd *ast.FuncDecl, bind func(r *tplRun, env *tplEnv), inl
 		}()
 		v.Items = r.items
 		v.Owned = r.owned
+		v.HoleLog = r.holeLog
 		for i, k := range r.keys {
 			v.Choices = append(v.Choices, fmt.Sprintf("%s=%d", k, r.memoVal(i)))
 		}
@@ -1930,6 +1969,12 @@ func tplRender(items []tplItem) string {
 			s += strings.TrimPrefix(it.ins.Op, "op")
 			if it.ins.Target >= 0 {
 				s += fmt.Sprintf("→%d", it.ins.Target)
+			}
+			if it.ins.VarName != "" {
+				s += " " + it.ins.VarName
+			}
+			if it.ins.PushNil {
+				s += " nil"
 			}
 		}
 		parts = append(parts, s)
